@@ -26,7 +26,7 @@ func init() {
 		Phases: func(tier string, seed int64) []Phase {
 			return []Phase{{Name: "request-direction", Run: c14Request}, {Name: "response-direction", Run: c14Response}, {Name: "constructors", Run: c14Constructors}, {Name: "instance-reuse", Run: c14Reuse}}
 		},
-		MinObserved: []string{"controls_checked", "request_direction_controls", "response_direction_controls", "goldap_decodes_compared", "reused_instance_encodings", "responses_with_a_non_success_result_code", "behera_constructor_calls_with_reordered_options", "messages_with_16_to_40_controls"},
+		MinObserved: []string{"controls_checked", "request_direction_controls", "response_direction_controls", "goldap_decodes_compared", "reused_instance_encodings", "responses_with_a_non_success_result_code", "behera_constructor_calls_with_reordered_options", "messages_with_16_to_40_controls", "request_controls_with_criticality_false_spelled_out"},
 	})
 }
 
@@ -189,6 +189,13 @@ func c14Request(c *Ctx) {
 					}
 					if d := goldapCheck(c, specs[k], enc); len(d) > 0 {
 						c.Violate("an independent client decodes the control differently ("+specs[k].Kind+")", strings.Join(d, "; "), map[string]any{"control": specs[k], "hex": hx(trunc(enc, 128))})
+					}
+					// a client may spell out criticality FALSE instead of leaving the element out (legal BER, what
+					// non-DER-minimising encoders send): it is the same control
+					if !wire.Crit && !wire.HasCrit && len(node.Children) >= 1 && r.Chance(30) {
+						kids := append([]*sber.Node{node.Children[0], sber.Bool(false)}, node.Children[1:]...)
+						node = sber.Seq(kids...)
+						c.Count("request_controls_with_criticality_false_spelled_out", 1)
 					}
 					ctlNode.Children = append(ctlNode.Children, node)
 					c.Count("controls_checked", 1)
